@@ -256,3 +256,50 @@ def same_expr(a, b):
 
 def text(n):
     return norm(n)
+
+
+def guards_of(fi, target_node):
+    """{(test text, 'T'|'F')}: the test outcomes every path from entry to target must take."""
+    cfg = fi.cfg
+    out = set()
+    ids = [b for b in nodes_for(fi, target_node) if cfg.reachable(b)]
+    tests = {}
+    for n in cfg.nodes:
+        if n.kind == "test":
+            tests.setdefault(norm(n.ast), []).append(n.id)
+    for txt, ts in tests.items():
+        for lab in ("T", "F"):
+            r = cfg.reach([cfg.entry], avoid_edges={(t, lab) for t in ts})
+            if ids and all(b not in r for b in ids):
+                out.add((txt, lab))
+    return out
+
+
+def run_abstract(fi, outcome):
+    """Follow the CFG of fi with test outcomes fixed by `outcome(test_expr) -> 'T'|'F'|None`
+    (None: both).  Exceptional edges are not followed.  -> set of reached node ids."""
+    cfg = fi.cfg
+    seen = set()
+    stack = [cfg.entry]
+    while stack:
+        a = stack.pop()
+        if a in seen:
+            continue
+        seen.add(a)
+        n = cfg.nodes[a]
+        want = None
+        if n.kind == "test":
+            want = outcome(n.ast)
+        for b, lab in cfg.succ[a]:
+            if lab == "X":
+                continue
+            if want is not None and lab in ("T", "F") and lab != want:
+                continue
+            stack.append(b)
+    return seen
+
+
+def reached_under(fi, target_node, outcome):
+    ids = nodes_for(fi, target_node)
+    r = run_abstract(fi, outcome)
+    return any(i in r for i in ids)
